@@ -26,7 +26,7 @@ ELEMS = ['C', 'H', 'O', 'N', 'Cl']
 def gen_model(rng):
     name = rng.choice(list(sg.TABLE))
     latt, symms = sg.TABLE[name]
-    z = rng.choice([1, 2, 3, 4, 6, 8, 12])
+    z = rng.choice([1, 2, 3, 4, 6, 8, 12, 1.5, 0.5])       # Z is a real number in SHELXL (ZERR 1.5 for a formula unit on a special position)
     cell = [round(rng.uniform(6, 20), 4) for _ in range(3)] + [round(rng.uniform(70, 110), 3) for _ in range(3)]
     wavelength = rng.choice([0.71073, 1.54178, 0.56086])
     unit = [rng.choice([4, 8, 12, 18, 24, 36, 5]) for _ in ELEMS]
@@ -52,14 +52,18 @@ def gen_model(rng):
         p = rng.choice([1.0, 1.0, 0.5, 0.25, 0.3333])
         sof = (10 * abs(m) + p) * (1 if m > 0 else -1)
         occ = p if abs(m) == 1 else (fv[abs(m) - 1] * p if m > 0 else (1 - fv[abs(m) - 1]) * p)
-        if rng.random() < 0.5:
+        ru = rng.random()
+        if ru < 0.12:       # strongly prolate, positive definite tensors whose U22 + U33 + U23 + U13 + U12 is zero or negative
+            u = rng.choice([[0.2, 0.01, 0.01, 0.0, -0.01, -0.01], [0.2, 0.01, 0.01, 0.005, -0.03, -0.03], [0.25, 0.02, 0.01, -0.005, -0.02, -0.02],
+                            [0.3, 0.015, 0.015, 0.0, -0.015, -0.015]])
+        elif ru < 0.5:
             u = [round(rng.uniform(0.01, 0.08), 5) for _ in range(3)] + [round(rng.uniform(-0.02, 0.02), 5) or 0.001 for _ in range(3)]
         else:
             u = [round(rng.uniform(0.01, 0.08), 5)]
         atoms.append({'label': nm if resi[0] == 0 else '%s_%d' % (nm, resi[0]), 'element': el, 'xyz': xyz, 'occ': occ, 'part': part, 'u': u})
         body.append('%s %d %s %s %s' % (nm, ELEMS.index(el) + 1, ' '.join('%.6f' % v for v in xyz), '%.5f' % sof, ' '.join('%.5f' % v for v in u)))
     lines = ['TITL %s in %s' % (rng.choice(['test', 'compound1', 'x']), name), 'CELL %s %s' % (wavelength, ' '.join(str(c) for c in cell)),
-             'ZERR %d 0.001 0.002 0.003 0.01 0.02 0.03' % z, 'LATT %d' % latt] + ['SYMM ' + s for s in symms] + ['SFAC ' + ' '.join(ELEMS), 'UNIT ' + ' '.join(str(u) for u in unit)]
+             'ZERR %s 0.001 0.002 0.003 0.01 0.02 0.03' % z, 'LATT %d' % latt] + ['SYMM ' + s for s in symms] + ['SFAC ' + ' '.join(ELEMS), 'UNIT ' + ' '.join(str(u) for u in unit)]
     if opt['temp'] is not None:
         lines.append('TEMP %s' % opt['temp'])
     if opt['size'] is not None:
